@@ -8,6 +8,10 @@ Sub-checks
                stopping rule against the model (exact arithmetic), monotone loss, feasible iterates, descent-direction
                certificate, a-posteriori optimality gap per competitor (truth, projected linear estimate, random physical
                points, the SCS solution), optimality up to the calibrated stopping accuracy.
+  reuse      : estimator-level histories: ONE LossMinimizationEstimator / loss / algorithm triple re-used across different same-shaped
+               tomographies (permuted testers), other parametrisations / types and data sets; every estimate must equal the fresh-object
+               estimate, the reported loss must be the defining formula on the CURRENT tomography's predicted distributions, and no
+               physical competitor may have a lower loss (measured with that formula, never with the re-used loss object).
   cvx_est    : CVXPY-backed estimator (SCS): feasibility of its estimate, its reported loss = quara's loss at its point,
                agreement with backtracking, no competitor better beyond tolerance.
 Tolerances are collected in TOL below; they were calibrated on the unchanged tree (see harness/manifest/C11.json)."""
@@ -54,6 +58,8 @@ def get_setup(name, para):
     key = (name, para)
     if key in _SETUPS:
         return _SETUPS[key]
+    full_name = name
+    name, _, variant = name.partition("/")      # "qst1/zxy": tester POVMs in that order; "povmt1/2013", "qpt1/2013": tester states permuted
     from quara.objects.composite_system_typical import generate_composite_system
     from quara.objects.state_typical import generate_state_from_name
     from quara.objects.povm_typical import generate_povm_from_name
@@ -63,7 +69,7 @@ def get_setup(name, para):
     with quiet():
         if name == "qst1":
             c = generate_composite_system("qubit", 1)
-            qt = StandardQst([generate_povm_from_name(n, c) for n in "xyz"], on_para_eq_constraint=para, schedules="all")
+            qt = StandardQst([generate_povm_from_name(n, c) for n in (variant or "xyz")], on_para_eq_constraint=para, schedules="all")
             r = (qt, c, "state", None)
         elif name == "qst3":
             c = generate_composite_system("qutrit", 1)
@@ -73,16 +79,18 @@ def get_setup(name, para):
         elif name in ("povmt1", "povmt1m3"):
             c = generate_composite_system("qubit", 1)
             m = 2 if name == "povmt1" else 3
-            qt = StandardPovmt([generate_state_from_name(c, n) for n in ["x0", "y0", "z0", "z1"]], m,
+            snames = ["x0", "y0", "z0", "z1"]
+            qt = StandardPovmt([generate_state_from_name(c, snames[int(ch)]) for ch in (variant or "0123")], m,
                                on_para_eq_constraint=para, schedules="all")
             r = (qt, c, "povm", m)
         elif name == "qpt1":
             c = generate_composite_system("qubit", 1)
-            qt = StandardQpt([generate_state_from_name(c, n) for n in ["x0", "y0", "z0", "z1"]],
+            snames = ["x0", "y0", "z0", "z1"]
+            qt = StandardQpt([generate_state_from_name(c, snames[int(ch)]) for ch in (variant or "0123")],
                              [generate_povm_from_name(n, c) for n in "xyz"], on_para_eq_constraint=para, schedules="all")
             r = (qt, c, "gate", None)
         else:
-            raise ValueError(name)
+            raise ValueError(full_name)
     _SETUPS[key] = r
     return r
 
@@ -756,6 +764,147 @@ def sub_cvx_est(ctx):
     ctx.note("cvx_est: %d runs; measured maxima (relative): %s" % (len(cases), {k: float("%.3g" % v) for k, v in sorted(st.items())}))
 
 
+# ====================================================================================== estimator-level histories (re-used objects)
+def ref_probs(qt, var):
+    """predicted distributions of the CURRENT tomography at var: p = A var + b with A, b asked from the tomography object itself
+    (never from a loss object); not normalised, not clipped -- the argument of the loss's defining formula"""
+    A = np.array(qt.calc_matA(), dtype=float); b = np.array(qt.calc_vecB(), dtype=float)
+    p = A @ np.array(var, dtype=float) + b
+    out, off = [], 0
+    for i in range(qt.num_schedules):
+        k = qt.num_outcomes(i)
+        out.append(p[off:off + k]); off += k
+    return out
+
+
+def ref_loss(m_, fam, ps, qs):
+    """the loss's defining formula with identity weights on given predicted distributions: squared error exactly (Coq model
+    C11_sq_loss with n = 0, b = p), relative entropy sum q ln(q/p) with quara's 1e-10 clipping.  returns (value, inband)"""
+    p = np.concatenate(ps); q = np.concatenate([np.asarray(x, dtype=float) for x in qs])
+    if fam == "se":
+        return float(m_.call("c11.sq_value", [len(p), 0], rflat(p) + rflat(q))[0]), False
+    val = 0.0
+    inband = False
+    for qi, pi in zip(q, p):
+        if qi >= 1e-10:
+            if pi < 1e-7:
+                inband = True
+            val += qi * math.log(max(qi / max(pi, 1e-10), 1e-10))
+    return val, inband
+
+
+def chk_reuse(ctx, case):
+    """one history: ONE LossMinimizationEstimator / loss / algorithm triple serves several different tomographies and data sets"""
+    from quara.protocol.qtomography.standard.loss_minimization_estimator import LossMinimizationEstimator
+    from quara.minimization_algorithm.projected_gradient_descent_backtracking import (
+        ProjectedGradientDescentBacktracking as PGDB, ProjectedGradientDescentBacktrackingOption as PGDBO)
+    sub = "reuse"
+    site = "LossMinimizationEstimator.calc_estimate"
+    m_ = ctx.get_model()
+    lname = case["loss"]
+    fam = "se" if lname in ("se", "fse") else "re"
+    max_iter = case.get("max_iter", 400)
+
+    def triple():
+        loss, lo = make_loss(lname)
+        return LossMinimizationEstimator(), loss, lo, PGDB(), PGDBO(max_iteration_optimization=max_iter)
+
+    def estimate(objs, qt, empi):
+        est, loss, lo, algo, ao = objs
+        with quiet(), warnings.catch_warnings():
+            warnings.simplefilter("ignore")
+            return est.calc_estimate(qt, copy_data(empi), loss, lo, algo, ao,
+                                     is_computation_time_required=True, is_detailed_results_required=True)
+    shared = triple()
+    stats = ctx.__dict__.setdefault("c11_stats_reuse", {})
+
+    def stat(name, v):
+        stats[name] = max(stats.get(name, 0.0), float(v))
+    hist = []
+    for si, st in enumerate(case["steps"]):
+        setup, para = st["setup"], st["para"]
+        hist.append("%s%s" % (setup, "-eq" if para else "-full"))
+        qt, c, kind, m = get_setup(setup, para)
+        truth_full, empi = make_data(qt, kind, c, m, para, st["shots"], st["seed"], st["truth_seed"])
+        qs = [qq for _, qq in empi]
+        tag = "step %d of history %s (loss %s, %s shots)" % (si, " -> ".join(hist), lname, st["shots"])
+        sig = ":" + lname + ":" + input_class(kind, para, m)
+        key = (lname, tuple(hist), st["shots"], st["seed"], st["truth_seed"])
+        r = estimate(shared, qt, empi)
+        r_f = estimate(triple(), qt, empi)
+        x = np.array(r.estimated_var, dtype=float); xf = np.array(r_f.estimated_var, dtype=float)
+        d = r.detailed_results[0]; df = r_f.detailed_results[0]
+        fx = [float(v) for v in d.fx]
+        conv = int(d.k) < max_iter and int(df.k) < max_iter
+        # (1) the estimate does not depend on what the objects were used for before
+        dx = float(np.abs(x - xf).max()) if x.shape == xf.shape else float("inf")
+        stat("reused_vs_fresh", dx)
+        if dx > 1e-7 * (1 + np.abs(xf).max()):
+            ctx.violation(sub, site, "reused-objects-estimate-differs-from-fresh" + sig,
+                          "%s: the estimate of the re-used estimator/loss/algorithm objects differs from the estimate of fresh objects by %.3g (k=%d vs %d)" % (tag, dx, d.k, df.k), case)
+        # (2) the loss value reported along the run is the defining formula on the CURRENT tomography's predicted distributions
+        f_ref, inband = ref_loss(m_, fam, ref_probs(qt, x), qs)
+        if not inband:
+            stat("reported_vs_formula", abs(fx[-1] - f_ref) / (1 + abs(f_ref)))
+            if abs(fx[-1] - f_ref) > 1e-9 * (1 + abs(f_ref)):
+                ctx.violation(sub, site, "reported-loss-not-defining-formula" + sig,
+                              "%s: loss reported at the estimate %.12g, defining formula on the current tomography's predicted distributions %.12g" % (tag, fx[-1], f_ref), case)
+        # (3) the same run invariants as a fresh run: monotone loss, feasible estimate
+        for i in range(len(fx) - 1):
+            if fx[i + 1] > fx[i] + TOL["monotone"] * (1 + abs(fx[i])):
+                ctx.violation(sub, site, "loss-increases" + sig, "%s: fx[%d]=%.17g > fx[%d]=%.17g" % (tag, i + 1, fx[i + 1], i, fx[i]), case)
+                return
+        ok, why = feasibility(ctx, kind, c, m, para, x, TOL["psd"], TOL["eq"])
+        if not ok:
+            ctx.violation(sub, site, "estimate-infeasible" + sig, "%s: %s" % (tag, why), case)
+            return
+        # (4) optimality against physical competitors, measured with the defining formula (never with the re-used loss object)
+        comps = [("truth", to_var(kind, para, truth_full)), ("fresh-objects", xf)]
+        for j in range(ctx.n(3, 6)):
+            comps.append(("random%d" % j, to_var(kind, para, rand_object(kind, c, m, st["truth_seed"] * 31 + 7 + j))))
+        if conv and not inband:
+            for name, z in comps:
+                okz, _ = feasibility(ctx, kind, c, m, para, z, TOL["psd"], 1e-6)
+                if not okz:
+                    continue
+                fz, inb = ref_loss(m_, fam, ref_probs(qt, z), qs)
+                if inb:
+                    continue
+                stat("opt_excess", max(0.0, f_ref - fz) / (1 + abs(f_ref)))
+                if f_ref - fz > TOL["opt"] * (1 + abs(f_ref)):
+                    ctx.violation(sub, site, "not-optimal" + sig, "%s: competitor %s has loss %.12g < loss of the estimate %.12g (defining formula on the current tomography)" % (tag, name, fz, f_ref), case)
+                    return
+        prev = case["steps"][si - 1] if si else None
+        same = prev is not None and prev["setup"].split("/")[0] == setup.split("/")[0] and prev["para"] == para
+        ctx.count(sub, key=key, nontrivial=(si > 0 and conv and not inband),
+                  label="%s-%s" % (lname, "first-use" if si == 0 else ("same-shape-other-testers" if same else "other-shape")))
+
+
+def sub_reuse(ctx):
+    shots_list = [100, 1000, 10 ** 4, 0, 10]
+    cases = []
+    idx = 0
+
+    def step(setup, para):
+        nonlocal idx
+        idx += 1
+        return {"setup": setup, "para": para, "shots": shots_list[idx % len(shots_list)], "seed": ctx.rng.randrange(10 ** 6),
+                "truth_seed": ctx.rng.randrange(10 ** 6)}
+    for li, lname in enumerate(["se", "fse", "re", "fre"]):
+        for rep in range(ctx.n(1, 2)):
+            para = (li + rep) % 2 == 0
+            # 1-qubit QST with three tester orders (same class / variables / schedules), then the other parametrisation
+            cases.append({"loss": lname, "steps": [step("qst1", para), step("qst1/zxy", para), step("qst1/yzx", para), step("qst1", not para)]})
+            if not ctx.quick:
+                cases.append({"loss": lname, "steps": [step("povmt1", para), step("povmt1/2013", para), step("povmt1/3102", not para), step("povmt1/3102", para)]})
+                cases.append({"loss": lname, "max_iter": 300, "steps": [step("qpt1", para), step("qpt1/2013", para), step("qpt1/1302", para)]})
+                cases.append({"loss": lname, "max_iter": 300, "steps": [step("qst1/yxz", para), step("povmt1", para), step("qpt1", not para), step("qst1", para), step("qst3", para)]})
+    ctx.sample("reuse", cases[0])
+    ctx.run_cases("reuse", chk_reuse, cases)
+    st = ctx.__dict__.get("c11_stats_reuse", {})
+    ctx.note("reuse: %d histories; measured maxima: %s" % (len(cases), {k: float("%.3g" % v) for k, v in sorted(st.items())}))
+
+
 # ====================================================================================== CVXPY linear maps
 def cvx_point(nvar, point):
     if point == "zero":
@@ -961,8 +1110,8 @@ def sub_cvx_maps(ctx):
     ctx.run_cases("cvx_maps", chk_cvx_maps, cases)
 
 
-SUBS = [("cvx_maps", sub_cvx_maps), ("pgdb", sub_pgdb), ("cvx_est", sub_cvx_est)]
-FNS = {"cvx_maps": chk_cvx_maps, "pgdb": chk_pgdb, "cvx_est": chk_cvx_est}
+SUBS = [("cvx_maps", sub_cvx_maps), ("reuse", sub_reuse), ("pgdb", sub_pgdb), ("cvx_est", sub_cvx_est)]
+FNS = {"cvx_maps": chk_cvx_maps, "pgdb": chk_pgdb, "cvx_est": chk_cvx_est, "reuse": chk_reuse}
 
 
 def sub_corpus(ctx):
@@ -983,7 +1132,8 @@ def run(ctx):
                 "per run up to 9/30 iterations are replayed through the exact model; a step is non-trivial when every Armijo margin and the stopping "
                 "margin are outside their ambiguity bands; a run is non-trivial when it stopped by its criterion and has a non-trivial step. "
                 "cvx_maps: one case = one variable point (unit vectors, zero, random dyadic points) of one object type/dimension/outcome count; zero is trivial. "
-                "cvx_est: one case = one SCS solve; non-trivial when the reference backtracking run converged.")
+                "cvx_est: one case = one SCS solve; non-trivial when the reference backtracking run converged. "
+                "reuse: one case = one step of a history of one re-used estimator/loss/algorithm triple; the first use of the objects is trivial, later steps are non-trivial when both runs stopped by their criterion and no relative-entropy term is in the clipping band.")
     ctx.assumptions = ["SCS (and CVXPY's canonicalisation) is an oracle: its output is checked (feasibility, loss, competitors), not proved",
                        "relative entropy: ln is not modelled; the Armijo/stopping logic is replayed exactly on the implementation's loss values, convexity is a hypothesis of T4/T5 for this loss",
                        "the physical projection P (Dykstra + eigh) is an oracle constrained per step by the descent certificate <g,y> + mu|y|^2 <= 0 and by feasibility of the iterates"]
